@@ -96,6 +96,29 @@ def _njmax_nnz_overflow(
     overflow_out[worldid] = overflow_out[worldid] | types.OverflowType.NJMAX_NNZ
 
 
+@wp.kernel
+def _njmax_nnz_empty_dropped_rows(
+  # Data in:
+  nefc_in: wp.array[int],
+  njmax_nnz_in: int,
+  # In:
+  efc_nnz_in: wp.array[int],
+  # Data out:
+  efc_J_rownnz_out: wp.array2d[int],
+  efc_J_rowadr_out: wp.array2d[int],
+):
+  worldid, efcid = wp.tid()
+
+  if efc_nnz_in[worldid] <= njmax_nnz_in or efcid >= nefc_in[worldid]:
+    return
+
+  # a dropped row has its rownnz but a stale rowadr: make it empty so that readers stay in bounds
+  rowadr = efc_J_rowadr_out[worldid, efcid]
+  if rowadr < 0 or rowadr + efc_J_rownnz_out[worldid, efcid] > njmax_nnz_in:
+    efc_J_rownnz_out[worldid, efcid] = 0
+    efc_J_rowadr_out[worldid, efcid] = 0
+
+
 @wp.func
 def _efc_row(
   # Model:
@@ -5854,3 +5877,9 @@ def make_constraint(m: types.Model, d: types.Data):
 
   if m.is_sparse:
     wp.launch(_njmax_nnz_overflow, dim=d.nworld, inputs=[d.njmax_nnz, efc_nnz], outputs=[d.overflow])
+    wp.launch(
+      _njmax_nnz_empty_dropped_rows,
+      dim=(d.nworld, d.njmax),
+      inputs=[d.nefc, d.njmax_nnz, efc_nnz],
+      outputs=[d.efc.J_rownnz, d.efc.J_rowadr],
+    )
